@@ -130,10 +130,11 @@ type refCommittee struct {
 	n     int
 	w     []uint64
 	total uint64
+	ids   []byte
 }
 
 func newRefCommittee(w []uint64) *refCommittee {
-	c := &refCommittee{n: len(w), w: w}
+	c := &refCommittee{n: len(w), w: w, ids: committeeIds(len(w))}
 	for _, x := range w {
 		c.total += x
 	}
@@ -141,7 +142,12 @@ func newRefCommittee(w []uint64) *refCommittee {
 }
 func (c *refCommittee) member(id byte) bool { return env.And(id >= 1, id <= byte(c.n)) }
 func (c *refCommittee) leader(v primitives.View) byte {
-	return byte(uint64(v)%uint64(c.n)) + 1
+	idx := uint64(v) % uint64(c.n)
+	r := c.ids[0]
+	for i := 1; i < c.n; i++ {
+		r = env.IteU8(idx == uint64(i), c.ids[i], r)
+	}
+	return r
 }
 func (c *refCommittee) f() uint64 { return (c.total - 1) / 3 }
 func (c *refCommittee) q() uint64 { return c.total - c.f() }
@@ -152,7 +158,7 @@ func (c *refCommittee) weight(ids []byte, use []bool) uint64 {
 	for i := 0; i < c.n; i++ {
 		in := false
 		for k, id := range ids {
-			in = env.Or(in, env.And(use[k], id == byte(i+1)))
+			in = env.Or(in, env.And(use[k], id == c.ids[i]))
 		}
 		sum += env.IteU64(in, c.w[i], 0)
 	}
